@@ -195,6 +195,7 @@ type MAuction struct {
 	Refund          map[string]*big.Int
 	MatchedLenHist  []int64
 	Proceeds        *big.Int
+	DustTop         bool // at settlement the highest price level had zero demand at its own price while a lower level qualified
 	AmbiguousCap    bool // a capped bidder has several bids at qualifying prices: matched count / flags depend on processing order
 }
 
@@ -1007,6 +1008,9 @@ func (m *Model) closeBatch(a *MAuction, fx *BlockEffects, w *BlockWitness) {
 	a.MatchedLenHist = append(a.MatchedLenHist, mo.MatchedLen)
 	if mo.Ambiguous {
 		a.AmbiguousCap = true
+	}
+	if mo.DustTop {
+		a.DustTop = true
 	}
 	final := uint32(len(a.EndTimes)) >= a.MaxExtRound+1
 	if !final {
